@@ -109,4 +109,10 @@ theorem any_modification_keeps_pool (base : List Nat) (cfg : Agent.Cfg) (w : Age
     ∀ k ∈ Agent.poolKeys (Agent.modify cfg w a r).world.pool, k ∈ Agent.poolKeys w.pool ∨ k = r.seid :=
   Agent.modify_pool_any base cfg w a r hP
 
+/-- and only establishments and modifications ever take an address: after any other request (deletion, report, association setup or
+ending, PFD update) every session that holds an address held it before -/
+theorem only_establishments_and_modifications_take_addresses (cfg : Agent.Cfg) (w : Agent.World) (q : Agent.Req)
+    (hq : q.mayAllocate = false) (k : Nat) (h : k ∈ Agent.poolKeys (Agent.stepReq cfg w q).pool) : k ∈ Agent.poolKeys w.pool :=
+  Agent.only_est_or_mod_take_addresses cfg w q hq k h
+
 end Props.C06
